@@ -54,7 +54,7 @@ def observe(name):
     def gmerge(self, t, node, start, ring_index):
         if state["depth_merge"] == 0 and "rings" not in rec:
             state["t"] = t
-            rec["rings"] = [len(t.nodes[i]["type"].get_ring_info()) for i in sorted(t.nodes)]
+            rec["rings"] = [max(len(t.nodes[i]["type"].get_ring_info()), t.nodes[i]["type"].get_structure().GetRingInfo().NumRings()) for i in sorted(t.nodes)]
         state["depth_merge"] += 1
         try:
             return g_merge(self, t, node, start, ring_index)
